@@ -17,10 +17,17 @@ import (
 	"verif/seam"
 )
 
-const (
-	verifDir    = "/verif"
-	scratchRoot = "/var/tmp/verif-scratch"
-)
+const scratchRoot = "/var/tmp/verif-scratch"
+
+// verifDir is the directory of the machinery itself: /verif, or the copy that
+// bin/check was started from (VSIM_VERIF), so that a run from a snapshot does
+// not pick up files of a tree that is being edited.
+var verifDir = func() string {
+	if d := os.Getenv("VSIM_VERIF"); d != "" {
+		return d
+	}
+	return "/verif"
+}()
 
 // repoDir is the tree under test: /repo, unless VSIM_REPO points at a scratch
 // worktree (used only by bin/mutant-test to try patches without touching /repo).
